@@ -85,6 +85,7 @@ class Ctx:
     """Collects what the monitors observed in one shard."""
     MAX_SAMPLES_PER_CLASS = 2
     MAX_VIOL_PER_CLASS = 3
+    MAX_DISTINCT = 60000
 
     def __init__(self, prop, spec):
         self.prop = prop
@@ -110,7 +111,11 @@ class Ctx:
         self.counters["held"] += 1
         self.counters["cls:" + cls] += 1
         if nontrivial and key is not None:
-            self.distinct.add(h64(key))
+            # distinct non-trivial cases are counted with a set of 64-bit digests, capped per shard (conservative beyond the cap)
+            if len(self.distinct) < self.MAX_DISTINCT:
+                self.distinct.add(h64(key))
+            else:
+                self.counters["nontrivial_beyond_distinct_cap"] += 1
         if sample is not None:
             lst = self.samples.setdefault(cls, [])
             if len(lst) < self.MAX_SAMPLES_PER_CLASS:
